@@ -72,12 +72,16 @@ func (w *hsWorld) service(input []byte) *native.NativeService {
 
 const hsChain = 3
 
+func hsNewKey() *hsKey {
+	pri, pub, err := keypair.GenerateKeyPair(keypair.PK_ECDSA, keypair.P256)
+	vhMust(err)
+	return &hsKey{pri, pub}
+}
+
 func hsNewWorld(n int) *hsWorld {
 	w := &hsWorld{sigc: map[string][]byte{}}
 	for i := 0; i <= n; i++ {
-		pri, pub, err := keypair.GenerateKeyPair(keypair.PK_ECDSA, keypair.P256)
-		vhMust(err)
-		w.keys = append(w.keys, &hsKey{pri, pub})
+		w.keys = append(w.keys, hsNewKey())
 	}
 	w.admin = types.AddressFromPubKey(w.keys[0].pub)
 	w.overlay = overlaydb.NewOverlayDB(leveldbstore.NewMemLevelDBStore())
